@@ -188,10 +188,15 @@ def crystal_check(ctx):
         states += tr["states"]
         emitted += tr["runs"]
     hist = None
+    proof = None
     if pid == "C01":
         hist = c01_histories(tier, seed)
         for f in hist["failures"]:
             failures.append(f)
+        proof = tlaps_shell_bound()
+        if not proof["proved"]:
+            vp.log("TOOL-ERROR: TLAPS did not re-prove spec/proofs/ShellBound.tla:", proof)
+            return 2
     if emitted == 0 or nontrivial == 0:
         vp.log("TOOL-ERROR: nothing replayed")
         return 2
@@ -210,6 +215,8 @@ def crystal_check(ctx):
         coverage["optimised"] = c04
     if area_res:
         coverage["shape_areas"] = {k: v for k, v in area_res.items() if k not in ("first_failures", "tlc")}
+    if proof:
+        coverage["tlaps_shell_bound"] = proof
     if hist:
         coverage["histories"] = {k: v for k, v in hist.items() if k != "failures"}
     if pid == "C01" and crit["k3"] == 0:
@@ -222,6 +229,29 @@ def crystal_check(ctx):
     vp.log("[%s] %s: %d grid states replayed, %d asserted, critical %s, %.0fs"
            % (pid, TITLE[pid], emitted, nontrivial, crit, time.time() - t0))
     return rc
+
+
+def tlaps_shell_bound():
+    """The lemma behind Crystal!KN / KM (an image that is not `Far` lies within the shells the
+    lattice verdict searches), proved for all integers with TLAPS; re-checked from scratch."""
+    import re
+    import shutil
+    import subprocess
+    d = os.path.join(vp.WORK, "C01_tlaps")
+    shutil.rmtree(d, ignore_errors=True)
+    os.makedirs(d)
+    shutil.copy(os.path.join(vp.SPEC, "proofs", "ShellBound.tla"), d)
+    t0 = time.time()
+    try:
+        r = subprocess.run(["timeout", "900", "tlapm", "--threads", "6", "--cleanfp", "--nofp", "ShellBound.tla"], cwd=d,
+                           stdout=subprocess.PIPE, stderr=subprocess.STDOUT, text=True)
+        m = re.search(r"All (\d+) obligations proved", r.stdout)
+        failed = re.search(r"(\d+)/(\d+) obligations failed", r.stdout)
+        return {"module": "spec/proofs/ShellBound.tla", "theorems": ["RowBound", "ColBound", "ShellBound"],
+                "proved": bool(m), "obligations": int(m.group(1)) if m else (int(failed.group(2)) if failed else 0),
+                "failed": int(failed.group(1)) if failed else 0, "wall_s": round(time.time() - t0, 1)}
+    except Exception as e:  # noqa
+        return {"module": "spec/proofs/ShellBound.tla", "proved": False, "error": str(e)}
 
 
 def trimer_areas(tier):
